@@ -187,11 +187,15 @@ func (g *pgen) decorate(c *ConvSpec) {
 		c.CtxRegex = true
 		pre = append(pre, "arg:context:regex ^ctx")
 	}
-	switch g.r.Intn(10) {
-	case 0, 1, 2:
-		pre = append(pre, "wrapErrors")
-	case 3, 4, 5:
+	wu := 30
+	if w.wrapUsing > 0 {
+		wu = w.wrapUsing
+	}
+	switch x := g.r.Intn(100); {
+	case x < wu:
 		pre = append(pre, "wrapErrorsUsing example.org/m/werr")
+	case x < wu+25:
+		pre = append(pre, "wrapErrors")
 	}
 	var extLines []string
 	for _, m := range c.Methods {
